@@ -455,6 +455,18 @@ func treeKeyClass(codec string, red *T) string {
 	if codec == "json_decode(default)" && red.K != 'm' && red.K != 'k' {
 		return "non-object-document"
 	}
+	if codec == "unserialize" {
+		// keyed by what the text handed to unserialize needs (same classes as the decoder family)
+		if s, ok := strOf(getEnv().call("serialize", red.toData())); ok {
+			if c := cstParse(s); c != nil {
+				failsText := func(x string) bool { return len(serDecFailures(getEnv(), x)) > 0 }
+				if failsText(s) {
+					return serFeatures(cstReduce(c, failsText).render())
+				}
+			}
+			return serFeatures(s)
+		}
+	}
 	return red.class()
 }
 
